@@ -116,8 +116,13 @@ class Interp:
         self.op_may_raise = True
         self.writes: list = []           # attribute writes (obj, name, value) for frame clauses
         from .builtins_sem import install
+        from .structural import install as install_structural
         self.builtin_handlers = {}
         install(self)
+        install_structural(self)
+        self.rewrites = []
+        self.map_stack = []
+        self.ghost_log = []
 
     # ------------------------------------------------------------------ path machinery
     def feasible(self, extra):
@@ -165,6 +170,7 @@ class Interp:
         base_pcs = len(self.pcs)
         base_eff = len(self.effects)
         base_writes = len(self.writes)
+        base_ghost = len(self.ghost_log)
         saved_occ = dict(self.occ)
         while pending:
             if len(results) > self.max_paths:
@@ -184,6 +190,7 @@ class Interp:
                 if out is not None:
                     out.effects = list(self.effects[base_eff:])
                     out.extra["writes"] = list(self.writes[base_writes:])
+                    out.extra["ghost"] = list(self.ghost_log[base_ghost:])
                     out.decisions = list(o.decisions)
                     results.append(out)
             finally:
@@ -191,6 +198,7 @@ class Interp:
                 del self.pcs[base_pcs:]
                 del self.effects[base_eff:]
                 del self.writes[base_writes:]
+                del self.ghost_log[base_ghost:]
             pending.extend(o.alternatives)
         self.occ = saved_occ
         return results
@@ -262,7 +270,10 @@ class Interp:
         if isinstance(v, SymStrMap):
             return v.t
         if isinstance(v, SymSet):
-            return v.t
+            b = fn("box_set", smt.SetV, V)(v.t)
+            c.assume(fn("unbox_set", V, smt.SetV)(b) == v.t)
+            c.assume(smt.tag(b) == smt.TAG_SET)
+            return b
         if isinstance(v, SymObj):
             if v.t is None:
                 v.t = c.fresh("obj_" + v.cls.__name__, V)
@@ -323,7 +334,7 @@ class Interp:
                     return r
             return smt.truthy(v.t)
         if isinstance(v, SymSet):
-            return smt.truthy(v.t)
+            return v.t != z3.EmptySet(V)
         raise Unsupported(f"truth of {type(v).__name__}")
 
     def node_truth(self, n: SymNode):
@@ -353,7 +364,7 @@ class Interp:
             self.class_table.append(cls)
         return self.class_index[cls]
 
-    def sym_node(self, cls, t, known_fields=None):
+    def sym_node(self, cls, t, known_fields=None, assume_facts=True):
         """Node of known class `cls` identified by V-term t; fields are projections of t."""
         c = self.ctx
         fields = {}
@@ -362,8 +373,10 @@ class Interp:
                 fields[name] = known_fields[name]
                 continue
             fields[name] = self.project(cls, name, kind, t)
-        c.assume(smt.tag(t) == smt.TAG_NODE)
-        c.assume(smt.cls_of(t) == self.cls_id(cls))
+        if assume_facts:
+            c.assume(smt.tag(t) == smt.TAG_NODE)
+            c.assume(smt.cls_of(t) == self.cls_id(cls))
+            c.assume(fn("alloc_id", V, Int)(t) <= 0)
         return SymNode(cls, t, fields)
 
     def project(self, cls, name, kind, t):
@@ -375,8 +388,9 @@ class Interp:
         if kind == "str":
             return SymStr(fn(f"fld_{base}_{name}", V, Str)(t))
         if kind == "map":
-            return SymMap(fn(f"fld_{base}_{name}_keys", V, S)(t), fn(f"fld_{base}_{name}_vals", V, S)(t),
-                          "immutabledict")
+            ks, vs = fn(f"fld_{base}_{name}_keys", V, S)(t), fn(f"fld_{base}_{name}_vals", V, S)(t)
+            self.ctx.assume(z3.Length(ks) == z3.Length(vs))
+            return SymMap(ks, vs, "immutabledict")
         raise Unsupported(kind)
 
     def field_owner(self, cls, name):
@@ -509,6 +523,11 @@ class Interp:
                 return Conc(obj.cls)
             if name == "rec" and obj.rec_contract is not None:
                 return BoundMethod(obj, obj.rec_contract, "rec")
+            sh = obj.ghost.get("symbolic_handlers")
+            if sh is not None:
+                r = sh(self, obj, name)
+                if r is not None:
+                    return r
             return self.class_attr(obj, obj.cls, name)
         if isinstance(obj, SuperProxy):
             mro = type.mro(obj.self_val.cls) if isinstance(obj.self_val.cls, type) else obj.self_val.cls.__mro__
@@ -524,7 +543,13 @@ class Interp:
             except AttributeError:
                 raise PyRaise(SymExc(AttributeError, (name,), origin=f"getattr({type(o).__name__},{name})")) from None
             return Conc(a)
-        if isinstance(obj, (PyList, PyTuple, PyDict, SymSeq, SymMap, SymStrMap, SymSet, SymStr)):
+        pytype = {SymInt: int, SymBool: bool, SymStr: str, PyTuple: tuple, PyList: list, PyDict: dict,
+                  SymMap: dict, SymStrMap: dict, SymSet: set, SymReal: float}.get(type(obj))
+        if isinstance(obj, SymSeq):
+            pytype = tuple if obj.kind == "tuple" else list
+        if pytype is not None and not hasattr(pytype, name):
+            raise PyRaise(SymExc(AttributeError, (name,), origin=f"{pytype.__name__}.{name}"))
+        if isinstance(obj, (PyList, PyTuple, PyDict, SymSeq, SymMap, SymStrMap, SymSet, SymStr, SymInt, SymBool)):
             return BoundMethod(obj, ("valmethod", name), name)
         if isinstance(obj, SymV):
             h = self.builtin_handlers.get("__getattr_hook__")
@@ -600,8 +625,9 @@ class Interp:
                 if isinstance(a, (PyTuple, PyList)) and isinstance(b, (PyTuple, PyList)):
                     return type(a)(a.items + b.items)
                 return SymSeq(z3.Concat(sa[0], sb[0]), sa[1])
-        if op in ("or", "and", "sub", "xor") and (isinstance(a, SymSet) or isinstance(b, SymSet)):
-            return SymSet(fn(f"set_{op}", V, V, V)(self.lift(a), self.lift(b)))
+        if op in ("or", "and", "sub") and (isinstance(a, SymSet) or isinstance(b, SymSet)):
+            sa, sb = self.as_set(a), self.as_set(b)
+            return SymSet({"or": z3.SetUnion, "and": z3.SetIntersect, "sub": z3.SetDifference}[op](sa, sb))
         if isinstance(a, SymNode) or isinstance(b, SymNode):
             r = self.node_binop(op, a, b)
             if r is not NotImplemented:
@@ -730,7 +756,7 @@ class Interp:
         if isinstance(a, Conc) and isinstance(b, Conc):
             return a.obj is b.obj or (type(a.obj) in (int, str, bool) and type(a.obj) is type(b.obj) and a.obj == b.obj)
         for x, y in ((a, b), (b, a)):
-            if isinstance(x, (PyList, PyDict, SymObj, Closure)) :
+            if isinstance(x, (PyList, PyDict, SymObj, Closure, BoundMethod, NativeHandler)):
                 return x is y
         if isinstance(a, Conc) and a.obj is None and isinstance(b, (SymInt, SymBool, SymStr, SymSeq, PyTuple, SymNode, SymMap)):
             return False
@@ -855,6 +881,8 @@ class Interp:
                 if t is not False:
                     disj.append(t)
             return SymBool(z3.Or(*disj)) if disj else Conc(False)
+        if isinstance(container, SymSet):
+            return SymBool(z3.IsMember(self.lift(item), container.t))
         if isinstance(container, SymStrMap):
             s = self.as_str(item)
             if s is None:
@@ -926,6 +954,9 @@ class Interp:
                 return SymV(fn("env_get", V, Str, V)(obj.t, s))
             raise PyRaise(SymExc(KeyError, (idx,), origin="env"))
         if isinstance(obj, SymMap):
+            r = self.coupled_map_value(obj, idx)
+            if r is not None:
+                return r
             raise Unsupported("subscript of symbolic-size mapping")
         h = self.builtin_handlers.get("__getitem_hook__")
         if h is not None:
@@ -1023,10 +1054,38 @@ class Interp:
         return self.make_set(items)
 
     def make_set(self, items):
-        t = z3.Const("set_empty", V)
+        t = z3.EmptySet(V)
         for it in items:
-            t = fn("set_add", V, V, V)(t, self.lift(it))
+            t = z3.SetAdd(t, self.lift(it))
         return SymSet(t)
+
+    def as_set(self, v):
+        """Value -> z3 Set(V) term."""
+        if isinstance(v, SymSet):
+            return v.t
+        if isinstance(v, SymV):
+            return fn("unbox_set", V, smt.SetV)(v.t)
+        if isinstance(v, Conc) and isinstance(v.obj, (set, frozenset)):
+            return self.make_set([Conc(x) for x in v.obj]).t
+        raise Unsupported(f"not a set: {type(v).__name__}")
+
+    def union_of_seq(self, sq):
+        """Union of a z3 sequence of (boxed) sets, decomposed along its concat structure."""
+        k = sq.decl().kind()
+        if k == z3.Z3_OP_SEQ_EMPTY:
+            return z3.EmptySet(V)
+        if k == z3.Z3_OP_SEQ_UNIT:
+            el = sq.arg(0)
+            if el.decl().name() == "box_set":
+                return el.arg(0)
+            return fn("unbox_set", V, smt.SetV)(el)
+        if k == z3.Z3_OP_SEQ_CONCAT:
+            out = None
+            for ch in sq.children():
+                u = self.union_of_seq(ch)
+                out = u if out is None else z3.SetUnion(out, u)
+            return out
+        return fn("union_fold", S, smt.SetV)(sq)
 
     def e_Dict(self, node, env):
         d = {}
@@ -1130,7 +1189,7 @@ class Interp:
         r = self.comprehension(node, node.elt, node.generators, env)
         if isinstance(r, list):
             return self.make_set(r)
-        return SymSet(fn("set_of_seq", S, V)(r.t))
+        return SymSet(fn("set_of_seq", S, smt.SetV)(r.t))
 
     def e_DictComp(self, node, env):
         # only { k: f(v) for k, v in m.items() } with key passed through
@@ -1223,28 +1282,99 @@ class Interp:
 
     def map_over(self, node, elt, targets, iters, ifs, env):
         """Lift `elt for target in iter [if ...]` over a symbolic-length iterable to a Map term."""
-        c = self.ctx
         seqs, shape = self.iter_parts(iters[0])
         target = targets[0]
-        bvs = [z3.Const(self.fresh_name(node, f"bv{i}"), V) for i in range(len(seqs))]
-        e2 = Env({}, env)
-        if shape == "zip":
-            self.bind_target(target, PyTuple([SymV(b) for b in bvs]), e2)
-        else:
-            self.bind_target(target, SymV(bvs[0]), e2)
 
-        def body():
+        def body(bvals):
+            e2 = Env({}, env)
+            if shape == "zip":
+                self.bind_target(target, PyTuple(list(bvals)), e2)
+            else:
+                self.bind_target(target, bvals[0], e2)
             for cnd in ifs[0]:
                 if not self.is_true(self.eval(cnd, e2)):
                     return None
             return self.eval(elt, e2)
+        return self.map_over_fn(node, seqs, body)
+
+    def map_over_fn(self, node, seqs, body, tag="bv"):
+        """Map a Python-level body (list of bound values -> Val | None) over parallel z3 sequences."""
+        # distribution over the concat structure of the sequence: map(f, a ++ [x] ++ b)
+        if len(seqs) == 1:
+            sq = z3.simplify(seqs[0]) if seqs[0].decl().kind() in (z3.Z3_OP_SEQ_CONCAT,) else seqs[0]
+            k = sq.decl().kind()
+            if k in (z3.Z3_OP_SEQ_CONCAT, z3.Z3_OP_SEQ_UNIT, z3.Z3_OP_SEQ_EMPTY):
+                parts = sq.children() if k == z3.Z3_OP_SEQ_CONCAT else [sq]
+                out_parts = []
+                for part in parts:
+                    pk = part.decl().kind()
+                    if pk == z3.Z3_OP_SEQ_EMPTY:
+                        continue
+                    if pk == z3.Z3_OP_SEQ_UNIT:
+                        r = body([SymV(part.arg(0))])
+                        if r is not None:
+                            out_parts.append(z3.Unit(self.lift(r)))
+                    else:
+                        r = self.map_over_fn(node, [part], body, tag)
+                        out_parts.append(r.t)
+                if not out_parts:
+                    return SymSeq(z3.Empty(S), "list")
+                return SymSeq(out_parts[0] if len(out_parts) == 1 else z3.Concat(*out_parts), "list")
+        # fusion: mapping over a sequence that is itself a (total, unfiltered) map composes the bodies
+        pre = []
+        base_seqs = []
+        bvs = []
+        for i, sq in enumerate(seqs):
+            info = self.map_info.get(sq.get_id())
+            if info is not None and z3.is_true(info["ok"]) and z3.is_true(info["keep"]) and len(seqs) == 1:
+                pre.append(info)
+                base_seqs = list(info["seqs"])
+                bvs = list(info["bvs"])
+            else:
+                pre.append(None)
+        if pre and pre[0] is not None and len(seqs) == 1:
+            inner_val = pre[0]["val"]
+            bound_vals = [SymV(inner_val)]
+            seqs = base_seqs
+        else:
+            bvs = [z3.Const(self.fresh_name(node, f"{tag}{i}"), V) for i in range(len(seqs))]
+            bound_vals = [SymV(b) for b in bvs]
+        frame = dict(seqs=list(seqs), bvs=list(bvs), node=node)
+        self.map_stack.append(frame)
         self.pure_depth += 1
         try:
-            outs = self.explore(body)
+            outs = self.explore(lambda: body(bound_vals))
         finally:
             self.pure_depth -= 1
+            self.map_stack.pop()
+        seqs, bvs = frame["seqs"], frame["bvs"]
         val_t, ok_t, keep_t = self.merge_outcomes(outs)
+        if self.rewrites:
+            val_t = z3.simplify(z3.substitute(val_t, *self.rewrites))
+            ok_t = z3.simplify(z3.substitute(ok_t, *self.rewrites))
         return self.map_term(node, bvs, seqs, val_t, ok_t, keep_t)
+
+    rewrites: list = []
+    map_stack: list = []
+
+    def coupled_map_value(self, m, idx):
+        """m[k] where k is the bound variable of an enclosing lifted iteration over m's own keys:
+        the value at the same position (mapping keys are distinct)."""
+        try:
+            it = self.lift(idx)
+        except Unsupported:
+            return None
+        for frame in reversed(self.map_stack):
+            for i, sq in enumerate(frame["seqs"]):
+                if z3.eq(sq, m.keys) and z3.eq(it, frame["bvs"][i]):
+                    for j, sq2 in enumerate(frame["seqs"]):
+                        if z3.eq(sq2, m.vals):
+                            return SymV(frame["bvs"][j])
+                    nb = z3.Const(self.fresh_name(frame["node"], f"bvx{len(frame['bvs'])}"), V)
+                    frame["seqs"].append(m.vals)
+                    frame["bvs"].append(nb)
+                    return SymV(nb)
+        return None
 
     def merge_outcomes(self, outs):
         """ITE-merge of the outcomes of a lifted body: (value term, ok term, keep term)."""
@@ -1285,6 +1415,19 @@ class Interp:
             walk(t)
         return list(seen.values())
 
+    def used_consts(self, terms):
+        seen = {}
+
+        def walk(t):
+            if z3.is_const(t) and t.decl().kind() == z3.Z3_OP_UNINTERPRETED:
+                seen[t.get_id()] = t
+                return
+            for ch in t.children():
+                walk(ch)
+        for t in terms:
+            walk(t)
+        return list(seen.values())
+
     def canon_key(self, terms, bound, free):
         subs = []
         for i, b in enumerate(bound):
@@ -1298,6 +1441,25 @@ class Interp:
     def map_term(self, node, bvs, seqs, val_t, ok_t, keep_t):
         c = self.ctx
         # identity map
+        if len(bvs) == 1 and z3.eq(val_t, bvs[0]) and z3.is_true(ok_t) and z3.is_true(keep_t):
+            return SymSeq(seqs[0], "list")
+        # drop parallel sequences whose bound variable is unused (when provably of equal length)
+        if len(bvs) > 1:
+            used = {x.get_id() for x in self.used_consts([val_t, ok_t, keep_t])}
+            keep_idx = [i for i, b in enumerate(bvs) if b.get_id() in used]
+            if not keep_idx:
+                keep_idx = [0]
+            if len(keep_idx) < len(bvs):
+                ref = seqs[keep_idx[0]]
+                droppable = True
+                for i in range(len(bvs)):
+                    if i not in keep_idx:
+                        r, _ = smt.check(c, self.pcs + [z3.Length(seqs[i]) != z3.Length(ref)], rlimit=self.rlimit)
+                        if r != "unsat":
+                            droppable = False
+                if droppable:
+                    bvs = [bvs[i] for i in keep_idx]
+                    seqs = [seqs[i] for i in keep_idx]
         if len(bvs) == 1 and z3.eq(val_t, bvs[0]) and z3.is_true(ok_t) and z3.is_true(keep_t):
             return SymSeq(seqs[0], "list")
         free = self.free_consts([val_t, ok_t, keep_t], bvs)
@@ -1522,6 +1684,9 @@ class Interp:
                     return Conc(obj(*[a.obj for a in args], **{k: v.obj for k, v in kwargs.items()}))
                 except Exception as e:  # noqa: BLE001
                     raise PyRaise(SymExc(type(e), (), origin="concrete builtin")) from None
+        if isinstance(obj, types.BuiltinMethodType) and isinstance(getattr(obj, "__self__", None), str) \
+                and obj.__name__ in ("format", "join", "__mod__"):
+            return SymV(z3.Const(self.fresh_name(node, "text"), V))   # message text: opaque
         raise Unsupported(f"call of {obj!r}")
 
     def call_class(self, cls, args, kwargs, star, dstar, node):
